@@ -157,8 +157,10 @@ def finish(run, args):
 
     wall = time.time() - run.t0
     ev = evidence(run, agg, violations, undecided, known_hits, faults, wall, args)
-    os.makedirs(os.path.join(VERIF, "evidence"), exist_ok=True)
-    with open(os.path.join(VERIF, "evidence", pid + ".json"), "w") as f:
+    # evidence about /repo itself goes to evidence/; runs against a scratch tree (VERIF_REPO) must not overwrite it
+    evdir = os.path.join(VERIF, "evidence") if os.path.realpath(repo_root()) == "/repo" else os.path.join(VERIF, "replays", "_scratch_evidence")
+    os.makedirs(evdir, exist_ok=True)
+    with open(os.path.join(evdir, pid + ".json"), "w") as f:
         json.dump(ev, f, indent=1, default=str)
     if args.write_baseline:
         os.makedirs(os.path.join(VERIF, "baseline"), exist_ok=True)
